@@ -37,6 +37,7 @@ pub mod c08;
 pub mod c09;
 pub mod c10;
 pub mod c11;
+pub mod c12;
 pub mod c13;
 pub mod c14;
 pub mod c15;
@@ -61,6 +62,7 @@ pub fn lookup(id: &str) -> Option<&'static dyn Prop> {
         "C09" => Some(&c09::C09),
         "C10" => Some(&c10::C10),
         "C11" => Some(&c11::C11),
+        "C12" => Some(&c12::C12),
         "C13" => Some(&c13::C13),
         "C14" => Some(&c14::C14),
         "C15" => Some(&c15::C15),
